@@ -53,7 +53,7 @@ RULE = ("seeded random class specifications of the C01 generator (per field: def
         "compared: outcome class, same class, new object, every field of the result and of the original "
         "afterwards, hash-cache state, BaseException.args, callback trace, frozenness probe, "
         "hash(result)==hash(instance with the same fields and empty cache).  A case = one (class, "
-        "history) with all its runs; non-trivial = class has a field; distinct = distinct case term")
+        "history) with up to 12 of its runs; non-trivial = class has a field; distinct = distinct case term")
 EXTRA_TRUSTED = [
     "the field tuple and MRO __slots__ are read from the real class and given to the model (as in C01); "
     "whether an attrs ancestor has a generated __getstate__ is computed from the generator's own "
@@ -798,9 +798,12 @@ def generate(tier, seed):
                     _dist["skipped_unconstructible:" + type(e).__name__] += 1
                     continue
                 resolve_faults(cut, plan, rng)
-                case, ps = assemble(cut, plan)
-                cases.append(case)
-                props.extend(ps)
+                # at most 12 runs per case: keeps a shard of 400 cases (one coqc process) below ~1 GB
+                for j in range(0, max(1, len(plan["runs"])), 12):
+                    part = dict(plan, runs=plan["runs"][j:j + 12])
+                    case, ps = assemble(cut, part)
+                    cases.append(case)
+                    props.extend(ps)
                 _dist["history=%s" % ("".join(p[0] for p in plan["hist"]) or "none")] += 1
                 for r in plan["runs"]:
                     _dist["runs_" + r["op"]] += 1
